@@ -634,7 +634,9 @@ func (t *Terminal) handleKey(key rune) (line []string, ok bool) {
 				text = text[:0]
 				continue
 			}
-			if c == '\n' {
+			if c == '\n' && quote != '`' {
+				// (a raw string may run over several lines: its line breaks are
+				// part of the value)
 				c = ' '
 			}
 			text = append(text, c)
